@@ -83,9 +83,19 @@ def dask_continuation(chk, prefix):
     okr = rets and all(isinstance(r.ast.value, ast.Call) and common.is_self_attr(r.ast.value.func, "func") and any(isinstance(a, ast.Starred) for a in r.ast.value.args) for r in rets)
     chk.req(okc and okr, "%s.integration" % prefix, "dask._RunWithEliotContext.__call__:continues-the-serialized-task", chk.where(rc),
             good="with Action.continue_task(task_id=self.task_id): return self.func(*args, **kwargs)", fail="the dask wrapper does not run the function inside the continued task / alters its result")
-    ids = [n for n in ast.walk(al.node) if isinstance(n, ast.Call) and isinstance(n.func, ast.Attribute) and n.func.attr == "serialize_task_id"]
-    chk.req(len(ids) == 1, "%s.integration" % prefix, "dask._add_logging:one-id-per-wrapped-task", chk.where(al), good="one serialize_task_id() per wrapped function",
-            fail="ids per wrapped task: %d" % len(ids))
+    # every wrapper gets an id serialized for it alone, at its construction (ids are single-use)
+    ctors = [n for n in ast.walk(al.node) if isinstance(n, ast.Call) and unparse(n.func).endswith("_RunWithEliotContext")]
+    chk.need(ctors, "dask._add_logging no longer constructs _RunWithEliotContext")
+    problems = []
+    for c in ctors:
+        kw = {k.arg: k.value for k in c.keywords}
+        tid = kw.get("task_id")
+        fresh = tid is not None and any(isinstance(x, ast.Call) and isinstance(x.func, ast.Attribute) and x.func.attr == "serialize_task_id" for x in ast.walk(tid))
+        if not fresh:
+            problems.append("a wrapper is built with task_id=%s, which is not a serialize_task_id() evaluated for this wrapper: several wrappers continue the task at the same position (duplicate task_level)"
+                            % (unparse(tid)[:50] if tid is not None else "<from a shared mapping>"))
+    chk.req(not problems, "%s.integration" % prefix, "dask._add_logging:one-fresh-id-per-wrapped-task", chk.where(al), good="task_id=str(ctx.serialize_task_id(), ...) at each wrapper construction",
+            fail="; ".join(problems))
 
 
 def stdlib_handler(chk, prefix):
@@ -105,6 +115,8 @@ def stdlib_handler(chk, prefix):
             good="one log_message per record; traceback iff exc_info", fail="EliotHandler.emit does not log exactly one message per record (range %s) / traceback not tied to exc_info" % (rng,))
 
 
+_DONE_KEY = "_integration_done"
+
 RULES = {
     "C03": [twisted_deferred_context],
     "C04": [twisted_deferred_context],
@@ -117,5 +129,15 @@ RULES = {
 
 
 def run(chk):
+    done = {o.construct for o in chk.obs if o.rule.endswith(".integration")}
     for r in RULES.get(chk.pid, []):
+        before = len(chk.obs)
         r(chk, chk.pid)
+        # drop duplicates of obligations a property module already added itself
+        fresh = []
+        for o in chk.obs[before:]:
+            if o.construct in done:
+                continue
+            done.add(o.construct)
+            fresh.append(o)
+        chk.obs[before:] = fresh
